@@ -175,7 +175,6 @@ def make_source(variant="base", n=5):
                         False, [])
         ev.members["mask"] = d
     elif variant == "defective":
-        f.attrs.__dict__  # noqa (plain dict access below)
         dict.update(f.attrs, {"model:volume defective": True})
     elif variant == "minimal":
         for k in ("logs", "tables", "basin_events", "basins"):
@@ -812,7 +811,7 @@ def r83_tasks(ctx, repo):
             ok = got in [x.replace('"', "'") for x in w.split("|")] or (
                 k.startswith("include") and w.startswith("not ")
                 and _negation_of(fn, v, w[4:]))
-            ctx.ob("R8.3" if False else "R8.6", ok,
+            ctx.ob("R8.6", ok,
                    f"{q}: {k}={got}" if ok else
                    f"{q} calls rtdc_copy with {k}={got}, expected {w}: "
                    f"content is dropped without request", node=c,
@@ -1155,7 +1154,6 @@ def r88(ctx, repo):
     ctx.ob("R8.8", ok, "the logs of the source are written to the output"
            if ok else "the source logs are no longer written", node=lg[0]
            if lg else fn, label="source logs kept")
-    ov = kwarg(ex, "override")
     p = kwarg(ex, "path", 0)
     ok = p is not None and txt(p) == "path_temp"
     ctx.ob("R8.8", ok, "export goes to the temp path", node=ex,
@@ -1200,6 +1198,111 @@ def run(ctx):
     r83_tasks(ctx, repo)
     r85_table(ctx, repo)
     r88(ctx, repo)
+
+
+CROSSVAL = r"""
+import json, tempfile, pathlib, warnings
+warnings.simplefilter("ignore")
+import h5py, hdf5plugin, numpy as np
+td = pathlib.Path(tempfile.mkdtemp())
+out = {}
+with h5py.File(td / "a.h5", "w") as h:
+    d = h.create_dataset("a", data=np.arange(5.), chunks=(2,), fletcher32=True,
+                         **hdf5plugin.Zstd(clevel=5))
+    d.attrs["k"] = 1
+    fa = d.id.get_create_plist().get_filter_by_id(32015)
+    out["filter_tuple"] = [fa[0], list(fa[1])]
+    b = h.create_dataset("b", data=np.arange(5.))
+    out["no_filter"] = b.id.get_create_plist().get_filter_by_id(32015) is None
+    out["contiguous_chunks"] = b.chunks is None
+    try:
+        h.create_dataset("c", shape=(5,), dtype=float, chunks=(10,))
+        out["chunks_gt_shape"] = "ok"
+    except ValueError:
+        out["chunks_gt_shape"] = "ValueError"
+    try:
+        list(b.iter_chunks())
+        out["iter_contiguous"] = "ok"
+    except TypeError:
+        out["iter_contiguous"] = "TypeError"
+    out["iter_chunks"] = [[s.start, s.stop] for (s,) in d.iter_chunks()]
+    im = h.create_dataset("im", data=np.zeros((5, 2)), chunks=(2, 1))
+    out["iter_chunks_2d"] = len(list(im.iter_chunks()))
+    g = h.require_group("g")
+    h5py.h5o.copy(h.id, b"a", g.id, b"a2")
+    out["copy_attrs"] = dict(g["a2"].attrs) == {"k": 1}
+    out["copy_filter"] = g["a2"].id.get_create_plist().get_filter_by_id(
+        32015) is not None
+    try:
+        h5py.h5o.copy(h.id, b"a", g.id, b"a2")
+        out["copy_exists"] = "ok"
+    except RuntimeError:
+        out["copy_exists"] = "RuntimeError"
+    lg = h.create_dataset("lg", data=np.array(["abc", "defgh"], dtype=object),
+                          dtype=h5py.string_dtype())
+    out["vlen_kind"] = lg.dtype.kind
+    out["vlen_len"] = [len(ii) for ii in lg]
+    s3 = h.create_dataset("s3", shape=(2,), dtype="S3", fletcher32=True,
+                          **hdf5plugin.Zstd(clevel=5))
+    s3[:] = lg[:].astype("S3")
+    out["truncate"] = [x.decode() for x in s3[:]]
+    out["auto_chunk"] = s3.chunks is not None
+    try:
+        h.create_dataset("a", data=np.arange(2.))
+        out["dup_name"] = "ok"
+    except ValueError:
+        out["dup_name"] = "ValueError"
+with h5py.File(td / "a.h5") as h:
+    try:
+        h["a"].attrs["x"] = 1
+        out["readonly"] = "ok"
+    except Exception as e:
+        out["readonly"] = "refused"
+print(json.dumps(out))
+"""
+
+CROSSVAL_EXPECT = {
+    "filter_tuple": [1, [5]], "no_filter": True, "contiguous_chunks": True,
+    "chunks_gt_shape": "ValueError", "iter_contiguous": "TypeError",
+    "iter_chunks": [[0, 2], [2, 4], [4, 5]], "iter_chunks_2d": 6,
+    "copy_attrs": True, "copy_filter": True, "copy_exists": "RuntimeError",
+    "vlen_kind": "O", "vlen_len": [3, 5], "truncate": ["abc", "def"],
+    "auto_chunk": True, "dup_name": "ValueError", "readonly": "refused",
+}
+
+
+def crossval(ctx):
+    """thorough tier: the h5py behaviour that sa/lib_C08.py models is
+    observed on the installed h5py (validates the analyser's model only;
+    dclab is not imported)"""
+    import json
+    import subprocess
+    import sys
+    try:
+        r = subprocess.run([sys.executable, "-c", CROSSVAL],
+                           capture_output=True, text=True, timeout=120,
+                           cwd="/tmp")
+    except Exception as e:        # pragma: no cover
+        return {"status": "skipped", "reason": str(e)}
+    if r.returncode != 0:
+        return {"status": "skipped", "reason": r.stderr[-300:]}
+    got = json.loads(r.stdout.strip().splitlines()[-1])
+    diff = {k: (got.get(k), v) for k, v in CROSSVAL_EXPECT.items()
+            if got.get(k) != v}
+    if diff:
+        raise AnalysisError(f"h5py behaves differently from the model of "
+                            f"sa/lib_C08.py: {diff}")
+    # the model itself
+    f = H.H5File("m")
+    d = f.create_dataset("a", shape=(5,), dtype=float, chunks=(2,),
+                         fletcher32=True, **H.zstd(clevel=5))
+    fa = d.id.get_create_plist().get_filter_by_id(H.ZSTD)
+    m = {"filter_tuple": [fa[0], list(fa[1])],
+         "iter_chunks": [[s.start, s.stop] for (s,) in d.iter_chunks()]}
+    for k, v in m.items():
+        if v != CROSSVAL_EXPECT[k]:
+            raise AnalysisError(f"model disagrees with its own table: {k}")
+    return {"status": "agrees", "facts": len(CROSSVAL_EXPECT)}
 
 
 MUTANTS = [
